@@ -51,6 +51,8 @@ def make_script(rng, n=6):
 
 
 def gen_cases(tier, seed):
+    from vf.algos import random_options
+
     rng = np.random.default_rng(seed + 101)
     reps = 2 if tier == "quick" else 30
     cases = []
@@ -68,6 +70,8 @@ def gen_cases(tier, seed):
                 buffer_size=int(rng.choice([7, 16, 1000])),
                 seed=int(rng.integers(1 << 20)), n_envs=int(rng.integers(2, 4)),
                 cost=COST.get(algo, 2),
+                # first repetition: defaults; later ones: documented options
+                options=random_options(algo, rng) if r else {},
             ))
     return cases
 
